@@ -29,6 +29,7 @@ import (
 	_ "verif/harness/fdcheck"
 	_ "verif/harness/gsim"
 	_ "verif/harness/nodes"
+	_ "verif/harness/procs"
 	"verif/harness/props"
 )
 
